@@ -96,13 +96,15 @@ inline void arena_free(void *p) {
 }
 } // namespace mcx
 
+namespace mcx { static long sys_live = 0; inline long heap_live_system() { return sys_live; } }
 void *operator new(size_t n) {
-    if (mcx::A.dir == 0) { void *p = malloc(n ? n : 1); if (!p) throw std::bad_alloc(); return p; }
+    if (mcx::A.dir == 0) { void *p = malloc(n ? n : 1); if (!p) throw std::bad_alloc(); mcx::sys_live++; return p; }
     return mcx::arena_alloc(n);
 }
 void operator delete(void *p) noexcept {
     if (!p) return;
     if (mcx::in_arena(p)) { mcx::arena_free(p); return; }
+    mcx::sys_live--;
     free(p);
 }
 void operator delete(void *p, size_t) noexcept { operator delete(p); }
